@@ -75,21 +75,12 @@ type Spec_BoundingWithScale struct {
 type Spec_ExpFromZeroAnchoringEvaluator struct {
 }
 
-type Spec_ExpFromZeroAnchoringEvaluator struct {
-}
-
 type Spec_IdealReferenceAlternativeEvaluator struct {
 }
 
 type Spec_valueWithCoefficient struct {
 	value       float64
 	coefficient float64
-}
-
-type Spec_NadirReferenceAlternativeEvaluator struct {
-}
-
-type Spec_IdealReferenceAlternativeEvaluator struct {
 }
 
 type Spec_NadirReferenceAlternativeEvaluator struct {
@@ -104,12 +95,6 @@ type Spec_InlineAnchoringApplierParams struct {
 
 type Spec_InlineAnchoringApplierResult struct {
 	AppliedDifferences []model.AlternativeWithCriteria `json:"appliedDifferences"`
-}
-
-type Spec_InlineAnchoringApplier struct {
-}
-
-type Spec_LinearAnchoringEvaluator struct {
 }
 
 type Spec_LinearAnchoringEvaluator struct {
